@@ -109,4 +109,224 @@ Proof.
     apply ptype_eqb_iff in Et. apply Z.eqb_eq. exact (E2 f eq_refl p Hp Et).
 Qed.
 
+(* ================================================================== c17_reset_ok *)
+(* no datagram of a poll is an ST_RESET *)
+Lemma G0_no_reset (s00 s1 : vsock) :
+  v_out s00 = [] -> G0 s00 s1 -> forall p, In p (v_out s1) -> ch_type (p_hdr p) <> ST_RESET.
+Proof.
+  intros Ho (_ & (l & A2 & A3) & _) p Hp. rewrite A2, Ho, app_nil_r in Hp. rewrite Forall_forall in A3.
+  destruct (A3 p Hp) as (K & _). exact K.
+Qed.
+
+Lemma jbd_no_reset (s1 : vsock) e :
+  (forall p, In p (v_out s1) -> ch_type (p_hdr p) <> ST_RESET) ->
+  forall p, In p (v_out (just_before_death s1 e)) -> ch_type (p_hdr p) <> ST_RESET.
+Proof.
+  intros H p Hp. pose proof (jbd_spec s1 e) as J. cbv zeta in J.
+  destruct J as (_ & _ & _ & _ & _ & _ & [J|(_ & _ & q & J & Hq & _)]); rewrite J in Hp.
+  - apply H; exact Hp.
+  - destruct Hp as [<-|Hp]; [rewrite Hq; discriminate|apply H; exact Hp].
+Qed.
+
+Theorem poll_no_reset_pkt (s s' : vsock) r :
+  poll cci s = (s', r) -> forall p, In p (v_out s') -> ch_type (p_hdr p) <> ST_RESET.
+Proof.
+  intro E. apply poll_G0 in E.
+  assert (Ho : v_out (poll_init s) = []) by reflexivity.
+  destruct r; cbn [pG0] in E.
+  - apply (G0_no_reset _ _ Ho E).
+  - destruct E as (s1 & E1 & ->). apply jbd_no_reset. apply (G0_no_reset _ _ Ho E1).
+  - destruct E as (s1 & E1 & ->). apply jbd_no_reset. apply (G0_no_reset _ _ Ho E1).
+  - apply (G0_no_reset _ _ Ho E).
+Qed.
+
+(* the invariant of the restart loop: no FIN emitted so far in this poll, or nothing is left in the
+   inbox (so no message, in particular no reset, can be processed any more) *)
+Definition NF (s : vsock) : Prop := Forall nofin (v_out s) \/ v_inbox s = [].
+
+(* what is claimed of a poll that reports the reset *)
+Definition RQ (s' : vsock) (r : poll_result) : Prop :=
+  r = PollReadyErr ErrStResetReceived -> v_state s' = Closed /\ Forall nofin (v_out s').
+
+Definition RP (r : body_res) : Prop :=
+  match r with BrReturn s' r => RQ s' r | BrRestart s' => NF s' | BrPanic => True end.
+
+Lemma NF_step (s s' : vsock) : NF s -> GN s s' -> (v_inbox s = [] -> v_inbox s' = []) -> NF s'.
+Proof.
+  intros [H|H] (l & E & Hl) Hi; [left; rewrite E; apply Forall_app; auto|right; auto].
+Qed.
+
+Lemma G_inbox (s s' : vsock) : G s s' -> v_inbox s = [] -> v_inbox s' = [].
+Proof. intros ((_ & _ & H & _) & _). exact H. Qed.
+
+Lemma reset_dec (e : verror) : e = ErrStResetReceived \/ e <> ErrStResetReceived.
+Proof. destruct e; auto; right; discriminate. Qed.
+
+Lemma RP_die_other (s : vsock) e : e <> ErrStResetReceived -> RP (die s e).
+Proof. intro H. unfold die, RP, RQ. intro E. injection E as E. contradiction. Qed.
+
+Lemma RP_die_reset (s : vsock) :
+  v_state s = Closed -> Forall nofin (v_out s) -> RP (die s ErrStResetReceived).
+Proof.
+  intros Hs Ho. unfold die, RP, RQ. intros _.
+  pose proof (jbd_spec s (Some ErrStResetReceived)) as J. cbv zeta in J.
+  destruct J as (J1 & _ & _ & _ & _ & _ & J7). split; [congruence|].
+  destruct J7 as [J7|(Hl & _)]; [rewrite J7; exact Ho|rewrite Hs in Hl; discriminate].
+Qed.
+
+Lemma bail_RP {A} (m : step A) k :
+  match m with
+  | SOk s1 a => (v_restart s1 = true -> NF s1) /\ (v_restart s1 = false -> RP (k s1 a))
+  | SErr s1 e => RP (die s1 e)
+  | SPanic => True
+  end -> RP (bail m k).
+Proof.
+  unfold bail. destruct m as [s1 a|s1 e|]; auto. intros [H1 H2].
+  destruct (v_restart s1) eqn:R; [apply H1; reflexivity|apply H2; reflexivity].
+Qed.
+
+Lemma pend_RP {A} (m : step A) k :
+  match m with
+  | SOk s1 a => (v_restart s1 = true -> NF s1) /\
+                (v_restart s1 = false -> v_transport_pending s1 = false -> RP (k s1 a))
+  | SErr s1 e => RP (die s1 e)
+  | SPanic => True
+  end -> RP (pend m k).
+Proof.
+  intro H. unfold pend. apply bail_RP. destruct m as [s1 a|s1 e|]; auto. destruct H as [H1 H2].
+  split; [exact H1|]. intro R. destruct (v_transport_pending s1) eqn:T; [unfold RP, RQ; discriminate|].
+  rewrite R. apply H2; [exact R|reflexivity].
+Qed.
+
+(* poll_body in three parts *)
+Definition body_head (k : vsock -> body_res) (s0 : vsock) : body_res :=
+  pend (maybe_send_syn_ack (body_start s0)) (fun s _ =>
+  pend (if immediate_ack_to_transmit s then send_ack s else SOk s false) (fun s _ =>
+  pend (process_all_incoming_messages cci s) (fun s _ => k s))).
+
+Definition body_mid (k : vsock -> body_res) (s : vsock) : body_res :=
+  let '(rx1, fr, w) := rx_flush (v_rx s) in
+  match fr with
+  | FlPanic => BrPanic
+  | FlOk _ =>
+    let s := add_wakes (set_rx s rx1) (rx_wakes w) in
+    if timer_expired (v_t_inactivity s) (v_now s) then die s ErrRemoteInactiveForTooLong
+    else
+    bail (split_tx_queue_into_segments cci s) (fun s _ =>
+    pend (send_tx_queue cci s) (fun s _ => k s))
+  end.
+
+Lemma body_front_parts k s0 : body_front cci k s0 = body_head (body_mid k) s0.
+Proof. reflexivity. Qed.
+
+Lemma imm_GN (s : vsock) : sGN s (if immediate_ack_to_transmit s then send_ack s else SOk s false).
+Proof. destruct (immediate_ack_to_transmit s); [apply send_ack_GN|apply GN_refl]. Qed.
+
+Lemma imm_G (s : vsock) : sG s (if immediate_ack_to_transmit s then send_ack s else SOk s false).
+Proof. destruct (immediate_ack_to_transmit s); [apply send_ack_G|apply G_refl]. Qed.
+
+Lemma head_RP k (t : vsock) :
+  NF t -> (forall s3, NF s3 -> v_restart s3 = false -> RP (k s3)) -> RP (body_head k t).
+Proof.
+  intros Hn Hk. unfold body_head.
+  assert (N0 : NF (body_start t)) by exact Hn. revert N0. generalize (body_start t). intros s N0.
+  apply pend_RP. pose proof (maybe_send_syn_ack_GN s) as A1. pose proof (maybe_send_syn_ack_G s) as B1.
+  destruct (maybe_send_syn_ack s) as [s1 a1|s1 e1|]; cbn [sGN sG] in *; [|apply RP_die_other; apply A1|exact I].
+  assert (N1 : NF s1) by (eapply NF_step; [exact N0|exact A1|apply G_inbox; exact B1]).
+  split; [auto|]. intros _ _.
+  apply pend_RP. pose proof (imm_GN s1) as A2. pose proof (imm_G s1) as B2.
+  destruct (if immediate_ack_to_transmit s1 then send_ack s1 else SOk s1 false) as [s2 a2|s2 e2|];
+    cbn [sGN sG] in *; [|apply RP_die_other; apply A2|exact I].
+  assert (N2 : NF s2) by (eapply NF_step; [exact N1|exact A2|apply G_inbox; exact B2]).
+  split; [auto|]. intros _ _.
+  apply pend_RP. pose proof (process_all_N cci s2) as A3. pose proof (process_all_G cci s2) as B3.
+  destruct (process_all_incoming_messages cci s2) as [s3 a3|s3 e3|]; cbn [rlN sGr] in *; [| |exact I].
+  - assert (N3 : NF s3).
+    { destruct A3 as [A3|A3]; [|right; exact A3]. eapply NF_step; [exact N2|exact A3|apply G_inbox; exact B3]. }
+    split; [auto|]. intros R3 _. apply Hk; assumption.
+  - destruct (reset_dec e3) as [->|Hne]; [|apply RP_die_other; exact Hne].
+    destruct (A3 eq_refl) as (C1 & C2 & (l & C3 & C4)).
+    apply RP_die_reset; [exact C1|]. destruct N2 as [N2|N2]; [|contradiction].
+    rewrite C3. apply Forall_app; auto.
+Qed.
+
+Lemma back_RP (s6 : vsock) : v_restart s6 = false -> RP (body_back s6).
+Proof.
+  intro R6. unfold body_back. cbv zeta.
+  assert (R7 : v_restart (if should_close_on_own_initiative s6 then transition_to_fin_wait_1 s6 else s6) = false).
+  { destruct (should_close_on_own_initiative s6); [rewrite transition_to_fin_wait_1_restart|]; exact R6. }
+  revert R7. generalize (if should_close_on_own_initiative s6 then transition_to_fin_wait_1 s6 else s6).
+  intros s7 R7.
+  apply pend_RP. pose proof (maybe_send_fin_G s7) as B8.
+  destruct (maybe_send_fin s7) as [s8 b8|s8 e8|] eqn:E8; cbn [sG] in *; [|apply RP_die_other; apply B8|exact I].
+  pose proof (maybe_send_fin_restart _ _ _ E8) as R8. rewrite R7 in R8.
+  split; [intro X; congruence|]. intros _ _.
+  apply pend_RP. pose proof (maybe_send_ack_G s8) as B9.
+  destruct (maybe_send_ack s8) as [s9 b9|s9 e9|] eqn:E9; cbn [sG] in *; [|apply RP_die_other; apply B9|exact I].
+  pose proof (maybe_send_ack_restart _ _ _ E9) as R9. rewrite R8 in R9.
+  split; [intro X; congruence|]. intros _ _.
+  unfold body_finish. destruct (state_is_closed _ _); [unfold RP, RQ; discriminate|].
+  cbv zeta. destruct (next_timer_to_poll _) as [sx tx]. unfold RP, RQ. discriminate.
+Qed.
+
+Lemma mid_RP (s3 : vsock) : NF s3 -> v_restart s3 = false -> RP (body_mid body_back s3).
+Proof.
+  intros N3 R3. unfold body_mid. destruct (rx_flush (v_rx s3)) as [[rx1 fr] w]. destruct fr; [|exact I].
+  cbv zeta.
+  assert (N4 : NF (add_wakes (set_rx s3 rx1) (rx_wakes w))) by exact N3.
+  assert (R4 : v_restart (add_wakes (set_rx s3 rx1) (rx_wakes w)) = false) by exact R3.
+  revert N4 R4. generalize (add_wakes (set_rx s3 rx1) (rx_wakes w)). intros s4 N4 R4.
+  destruct (timer_expired _ _); [apply RP_die_other; discriminate|].
+  apply bail_RP. pose proof (split_keeps cci s4) as K. pose proof (split_G cci s4) as B5.
+  destruct (split_tx_queue_into_segments cci s4) as [s5 a5|s5 e5|]; cbn [sG] in *;
+    [|apply RP_die_other; apply B5|exact I].
+  destruct K as [K1 K2].
+  assert (N5 : NF s5) by (eapply NF_step; [exact N4|apply GN_eq; exact K1|apply G_inbox; exact B5]).
+  split; [auto|]. intros R5.
+  apply pend_RP. pose proof (send_tx_queue_G cci s5) as B6.
+  destruct (send_tx_queue cci s5) as [s6 a6|s6 e6|] eqn:E6; cbn [sG] in *;
+    [|apply RP_die_other; apply B6|exact I].
+  split.
+  - intro R6. eapply NF_step; [exact N5|eapply stq_restart_data; eauto|apply G_inbox; exact B6].
+  - intros R6 _. apply back_RP. exact R6.
+Qed.
+
+Lemma poll_body_RP (t : vsock) : NF t -> RP (poll_body cci t).
+Proof.
+  intro Hn. rewrite poll_body_parts, body_front_parts. apply head_RP; [exact Hn|].
+  intros s3 N3 R3. apply mid_RP; assumption.
+Qed.
+
+Theorem poll_reset (s s' : vsock) :
+  poll cci s = (s', PollReadyErr ErrStResetReceived) ->
+  v_state s' = Closed /\
+  forall p, In p (v_out s') -> ch_type (p_hdr p) <> ST_FIN /\ ch_type (p_hdr p) <> ST_RESET.
+Proof.
+  intro E. pose proof (poll_no_reset_pkt _ _ _ E) as Hr.
+  rewrite poll_unfold in E.
+  pose proof (poll_loop_ind cci NF RQ) as H.
+  assert (H0 : RQ s' (PollReadyErr ErrStResetReceived)).
+  { specialize (H ltac:(intros; unfold RQ; discriminate)).
+    assert (Hb : forall t, NF t -> match poll_body cci t with
+                                   | BrReturn s'0 r => RQ s'0 r | BrRestart s'0 => NF s'0 | BrPanic => True end).
+    { intros t Ht. exact (poll_body_RP t Ht). }
+    specialize (H Hb 64%nat (poll_init s)). rewrite E in H. apply H. left. constructor. }
+  destruct (H0 eq_refl) as (A1 & A2). split; [exact A1|].
+  intros p Hp. rewrite Forall_forall in A2. split; [apply A2; exact Hp|apply Hr; exact Hp].
+Qed.
+
+Theorem c17_reset_ok_step : forall cfg (s : vsock) o, c17_reset_ok cfg (fstep_of cci s o) = true.
+Proof.
+  intros cfg s o. destruct o;
+    try (unfold c17_reset_ok; rewrite fstep_of_event; reflexivity).
+  destruct (poll cci (VSockRec.set_sends s script)) as [s' r] eqn:E.
+  rewrite (fstep_of_poll cci s script s' r E). unfold c17_reset_ok.
+  cbn [fs_event fs_result fs_post fp_of_vsock f_state].
+  destruct r as [| |e|]; try reflexivity.
+  destruct e; try reflexivity. cbn [verror_is_reset].
+  apply poll_reset in E. destruct E as (E1 & E2). rewrite E1. cbn [state_is_closed_st andb].
+  apply forallb_pkts. intros p Hp. rewrite !pkt_is_of. destruct (E2 p Hp) as (A & B).
+  rewrite (ptype_eqb_false _ _ A), (ptype_eqb_false _ _ B). reflexivity.
+Qed.
+
 End WithCC.
